@@ -3,13 +3,16 @@
 //                                    same canonical output as ocaml/C12/driver.ml
 //        B <kind> <nprod> op...      op: p<i> push_back(const&) by producer i   m<i> push_back(&&)   c consume   s size   e empty
 //        V <kind> <v0|-> op...       op: a<v> assign   u update   g get   r ref     (v0 = - : default-constructed)
-//   harness stressbuf <kind> <nprod> <npush> [spin]   threads; oracle inside; prints OK .../FAIL ...
-//   harness stressval <kind> <n> [spin]
+//   harness stressbuf <kind> <nprod> <npush> [spin] [tracefile]   threads; oracle inside; prints OK .../FAIL ...;
+//                                    tracefile: the consumer's history (one line per round: b <size()> <empty()> p.s p.s ...)
+//                                    for the extracted acceptance function (ocaml/C12/driver.ml tracebuf)
+//   harness stressval <kind> <n> [spin] [tracefile]   history lines: u1 v | u0 v | g v | q i (quiescent point, see below)
 // kind: pod (trivially copyable struct / int) | str (std::string) | vec (std::vector<int>)
 #include <atomic>
 #include <chrono>
 #include <cstdio>
 #include <cstdlib>
+#include <fstream>
 #include <iostream>
 #include <sstream>
 #include <string>
@@ -146,8 +149,10 @@ static int mode_seq()
 static inline void spin(int n) { for (volatile int i = 0; i < n; ++i) {} }
 
 template <typename T>
-static int stressbuf(int nprod, long npush, int spinN)
+static int stressbuf(int nprod, long npush, int spinN, const char *tracePath)
 {
+  struct Round { size_t before; bool wasEmpty; std::vector<std::pair<int, long>> els; };
+  std::vector<Round> trace;
   TransactionalBuffer<T> buf;
   std::atomic<int> running(nprod);
   std::atomic<bool> go(false), stopSampler(false);
@@ -193,10 +198,12 @@ static int stressbuf(int nprod, long npush, int spinN)
     if (!wasEmpty && b.empty() && fails.size() < 5) fails.push_back("consume() returned nothing right after empty() == false (single consumer)");
     if (!b.empty()) { ++nonempty; if ((long)b.size() > maxBatch) maxBatch = (long)b.size(); }
     int distinct = 0; std::vector<char> seen((size_t)nprod, 0);
+    if (tracePath) { trace.push_back(Round{before, wasEmpty, {}}); trace.back().els.reserve(b.size()); }
     for (size_t k = 0; k < b.size(); ++k) {
       int p = -1; long s = -1;
       bool ok = EC<T>::dec(b[k], p, s);
       ++got;
+      if (tracePath) trace.back().els.push_back(ok ? std::make_pair(p, s) : std::make_pair(-1, -1L));
       if (!ok) { if (fails.size() < 5) fails.push_back("corrupt payload in batch " + std::to_string(batches - 1) + " at " + std::to_string(k)); continue; }
       if (p < 0 || p >= nprod) { if (fails.size() < 5) fails.push_back("element of unknown producer " + std::to_string(p)); continue; }
       if (!seen[(size_t)p]) { seen[(size_t)p] = 1; ++distinct; }
@@ -222,6 +229,16 @@ static int stressbuf(int nprod, long npush, int spinN)
   if (got != total && fails.size() < 8) fails.push_back("consumed " + std::to_string(got) + " elements, pushed " + std::to_string(total));
   if (!buf.empty() || buf.size() != 0) fails.push_back("buffer not empty after the final consume");
   if (!sampFail.empty()) fails.push_back(sampFail);
+  if (tracePath) {
+    std::ofstream tf(tracePath);
+    tf << "TB " << nprod << " " << npush << "\n";
+    for (auto &r : trace) {
+      tf << "b " << r.before << " " << (r.wasEmpty ? 1 : 0);
+      for (auto &e : r.els) tf << " " << e.first << "." << e.second;
+      tf << "\n";
+    }
+    tf << "END\n";
+  }
   if (fails.empty())
     std::cout << "OK batches=" << batches << " nonempty=" << nonempty << " maxbatch=" << maxBatch << " multiproducer_batches=" << multi
               << " samples=" << samples << " maxsize_seen=" << maxSeen << " empty_seen=" << sawEmpty << "\n";
@@ -231,26 +248,34 @@ static int stressbuf(int nprod, long npush, int spinN)
 }
 
 // ------------------------------------------------------------------------- stress: value
+// The producer assigns 1..n.  After every few assignments (and after the last one) it pauses at a
+// "quiescent point": it publishes quiet = i (assignment i has completed) and waits for the consumer's
+// acknowledgement.  An update() that the consumer begins after reading quiet == i therefore runs with
+// the producer stopped, and must obtain value i (model theorem tval_quiescent_update).
 template <typename T>
-static int stressval(long n, int spinN)
+static int stressval(long n, int spinN, const char *tracePath)
 {
   TransactionalValue<T> tv(VC<T>::enc(0));
-  std::atomic<bool> go(false), done(false);
+  std::atomic<bool> go(false);
+  std::atomic<long> quiet(0), ack(0);
   std::thread prod([&] {
     while (!go.load()) {}
     for (long i = 1; i <= n; ++i) {
       tv = VC<T>::enc(i);
-      if (spinN) spin((int)(i % (spinN + 1)));
+      if (i == n || (i * 2654435761UL >> 7) % 4 == 0) { quiet.store(i); while (ack.load() < i) {} }
+      else if (spinN) spin((int)(i % (spinN + 1)));
     }
-    done.store(true);
   });
   std::vector<std::string> fails;
-  long prev = 0, polls = 0, trues = 0, gets = 0;
+  std::vector<std::pair<char, long>> trace;   // 'T' true update, 'F' false update, 'g' get/ref, 'q' quiescent
+  long prev = 0, polls = 0, trues = 0, gets = 0, quiets = 0, acked = 0;
   auto observe = [&](bool viaRef, int upd /* -1: no update call, 0 false, 1 true */) {
     long v = -1;
     bool ok = viaRef ? VC<T>::dec(tv.ref(), v) : VC<T>::dec(tv.get(), v);
     ++gets;
-    if (!ok) { if (fails.size() < 5) fails.push_back("get() returned a value never assigned (corrupt/moved-from), decoded " + std::to_string(v) + " after " + std::to_string(prev)); return; }
+    if (!ok) v = -1;
+    if (tracePath) trace.push_back(std::make_pair(upd == 1 ? 'T' : upd == 0 ? 'F' : 'g', v));
+    if (!ok) { if (fails.size() < 5) fails.push_back("get() returned a value never assigned (corrupt/moved-from) after " + std::to_string(prev)); return; }
     if (v < 0 || v > n) { if (fails.size() < 5) fails.push_back("get() returned " + std::to_string(v) + ", not one of the assigned values 1.." + std::to_string(n)); return; }
     if (v < prev && fails.size() < 5) fails.push_back("get() went back from " + std::to_string(prev) + " to " + std::to_string(v));
     if (upd == 1 && !(v > prev) && fails.size() < 5) fails.push_back("update() returned true but get() stayed at " + std::to_string(v) + " (previous " + std::to_string(prev) + ")");
@@ -259,19 +284,38 @@ static int stressval(long n, int spinN)
   };
   go.store(true);
   while (true) {
-    bool fin = done.load();
+    long q = quiet.load();            // q > acked: assignment q completed and the producer waits for the acknowledgement
     bool u = tv.update();
     ++polls; if (u) ++trues;
     observe((polls & 3) == 0, u ? 1 : 0);
     if ((polls & 7) == 0) observe(false, -1);
-    if (fin) break;                   // this update() began after the last assignment had completed
+    if (q > acked) {
+      ++quiets;
+      if (tracePath) trace.push_back(std::make_pair('q', q));
+      if (prev != q && fails.size() < 5)
+        fails.push_back("assignment " + std::to_string(q) + " had completed and the producer was idle, but the next update()+get() gave " + std::to_string(prev) + " (value lost)");
+      acked = q; ack.store(q);
+      if (q == n) break;
+    }
     if (spinN) spin(spinN);
   }
   prod.join();
   if (prev != n) fails.push_back("after the producer finished, update()+get() gave " + std::to_string(prev) + ", last assigned " + std::to_string(n));
   if (tv.update()) fails.push_back("update() returned true with nothing newly assigned");
-  observe(false, 0);
-  if (fails.empty()) std::cout << "OK polls=" << polls << " true_updates=" << trues << " gets=" << gets << " last=" << prev << "\n";
+  else if (tracePath) trace.push_back(std::make_pair('F', prev));
+  observe(false, -1);
+  if (tracePath) {
+    std::ofstream tf(tracePath);
+    tf << "TV " << n << "\n";
+    for (auto &e : trace) {
+      if (e.first == 'T') tf << "u1 " << e.second << "\n";
+      else if (e.first == 'F') tf << "u0 " << e.second << "\n";
+      else if (e.first == 'g') tf << "g " << e.second << "\n";
+      else tf << "q " << e.second << "\n";
+    }
+    tf << "END\n";
+  }
+  if (fails.empty()) std::cout << "OK polls=" << polls << " true_updates=" << trues << " gets=" << gets << " quiescent_points=" << quiets << " last=" << prev << "\n";
   else for (auto &f : fails) std::cout << "FAIL " << f << "\n";
   return 0;
 }
@@ -285,16 +329,18 @@ int main(int argc, char **argv)
     int nprod = argc > 3 ? std::atoi(argv[3]) : 2;
     long npush = argc > 4 ? std::atol(argv[4]) : 1000;
     int sp = argc > 5 ? std::atoi(argv[5]) : 0;
-    if (kind == "pod") return stressbuf<Pod>(nprod, npush, sp);
-    if (kind == "str") return stressbuf<std::string>(nprod, npush, sp);
-    return stressbuf<std::vector<int>>(nprod, npush, sp);
+    const char *tp = argc > 6 ? argv[6] : nullptr;
+    if (kind == "pod") return stressbuf<Pod>(nprod, npush, sp, tp);
+    if (kind == "str") return stressbuf<std::string>(nprod, npush, sp, tp);
+    return stressbuf<std::vector<int>>(nprod, npush, sp, tp);
   }
   if (mode == "stressval") {
     long n = argc > 3 ? std::atol(argv[3]) : 1000;
     int sp = argc > 4 ? std::atoi(argv[4]) : 0;
-    if (kind == "pod") return stressval<int>(n, sp);
-    if (kind == "str") return stressval<std::string>(n, sp);
-    return stressval<std::vector<int>>(n, sp);
+    const char *tp = argc > 5 ? argv[5] : nullptr;
+    if (kind == "pod") return stressval<int>(n, sp, tp);
+    if (kind == "str") return stressval<std::string>(n, sp, tp);
+    return stressval<std::vector<int>>(n, sp, tp);
   }
   std::cerr << "unknown mode\n";
   return 2;
